@@ -576,3 +576,66 @@ def s_agg_vs_agg(rng, sp):
     text = (f'It is prohibited that the number of {o1[0].name} where a {s1.name} {w} is {v1} {p1} is {rng.choice(CMP)} '
             f'the number of {o2[0].name} where a {s2.name} {p} is {v2} {p2}.')
     return Sentence(text, 'agg_vs_agg', author_vars=[w, p], uses=[s1.name, s2.name, k1, k2])
+
+
+HEADERS = ['The following propositions apply in the initial state:',
+           'The following propositions always apply except in the initial state:',
+           'The following propositions always apply:',
+           'The following propositions apply in the final state:']
+PREFIXES = ['previously', 'subsequently', 'initially', 'finally']
+
+
+def gen_temporal_spec(rng, size=None):
+    """W18: block headers, entity prefixes (previously / subsequently / initially / finally) on verbs in heads and bodies,
+    including verbs that are FIRST introduced with a prefix."""
+    sp = Spec()
+    sp.concepts = gen_schema(rng, n=rng.randrange(2, 4), allow_fk=False)
+    for c in sp.concepts:
+        c.keys = [('own', 'id')]
+        c.attrs = []
+        sp.sentences.append(decl_sentence(c))
+    first = True
+    blocks = [rng.choice(HEADERS) for _ in range(rng.randrange(1, 4))]
+    plain_verbs = []
+    for bi, h in enumerate(blocks):
+        hdr = h
+        if bi == 0:
+            for c in sp.concepts:
+                lo = rng.randrange(0, 2)
+                s = Sentence(f'{article(c.name).capitalize()} {c.name} goes from {lo} to {lo + rng.randrange(1, 3)}.', 'range', uses=[c.name])
+                s.text = (hdr + '\n' + s.text) if hdr else s.text
+                s.header = hdr
+                hdr = None
+                sp.sentences.append(s)
+        for _ in range(rng.randrange(1, 4)):
+            c = rng.choice(sp.concepts)
+            x = fresh_labels(rng, 1)[0]
+            r = rng.random()
+            if r < 0.4 or not plain_verbs:
+                v = rng.choice(['loaded', 'moved', 'open', 'ready', 'busy', 'armed']) + str(len(sp.verbs))
+                pre = rng.choice(PREFIXES + ['', ''])
+                sp.verbs[v] = (v, None, c, [])
+                plain_verbs.append((v, c))
+                text = f'Whenever there is {article(c.name)} {c.name} {x}, then {x} can be {pre + " " if pre else ""}{v}.'
+                kind = 'temporal_choice'
+            elif r < 0.7:
+                v, vc = rng.choice(plain_verbs)
+                pre = rng.choice(PREFIXES)
+                neg = rng.choice(['', 'not '])
+                text = f'It is prohibited that {vc.name} {x} is {neg}{pre} {v}, whenever there is {article(vc.name)} {vc.name} {x}.'
+                kind = 'temporal_constraint'
+            else:
+                v, vc = rng.choice(plain_verbs)
+                w = rng.choice(['kept', 'held', 'seen']) + str(len(sp.verbs))
+                sp.verbs[w] = (w, None, vc, [])
+                pre = rng.choice(['previously', 'previously', 'initially'])
+                text = f'{vc.name.capitalize()} {x} is {w} when {vc.name} {x} is {pre} {v}.'
+                plain_verbs.append((w, vc))
+                kind = 'temporal_definition'
+            s = Sentence(text, kind, author_vars=[x], uses=[c.name])
+            if hdr:
+                s.text = hdr + '\n' + s.text
+                s.header = hdr
+                hdr = None
+            sp.sentences.append(s)
+    return sp
